@@ -221,6 +221,27 @@ def main():
             got = behaviour(v)
             if got != [want_a, want_a, want_a, "obj"]:
                 fail("override_with_a_renamed_parameter_replaces_the_parents_method", how=how, method=variant_fn.__name__, got=got)
+    # ... and when the override is the only method left for that signature, the child is callable by the override's own
+    # parameter name (the replaced parent method no longer shapes the child's entry point)
+    for how in ("variant", "copy+register", "grandchild"):
+        p1 = Ovld(name="single")
+
+        def only(x: A):
+            return "parent"
+
+        p1.register(only)
+        if how == "variant":
+            v = p1.variant(fa_renamed)
+        elif how == "copy+register":
+            v = p1.copy()
+            v.register(fa_renamed)
+        else:
+            v = p1.copy().copy()
+            v.register(fa_renamed)
+        n += 2
+        got = [out(lambda: v(n_=A())), out(lambda: p1(x=A()))]
+        if got != ["A-renamed", "parent"]:
+            fail("override_with_a_renamed_parameter_is_callable_by_its_own_keyword", how=how, got=got)
     print(json.dumps(dict(evaluations=n, failing=list(failing.values()))))
     return 1 if failing else 0
 
